@@ -4,6 +4,23 @@ namespace TbbVerif.Generated.C15
 open TbbVerif.Cint
 def initialBufferSize : Nat := 4
 def hashInitialSize : Nat := 8
+def sizeofSizeT : Nat := 8
 def bufferPopMode : Nat := 1
+def tfRegSucc : Nat := 1
+def tfRemSucc : Nat := 0
+def tfReqItem : Nat := 0
+def tfResItem : Nat := 0
+def tfRelRes : Nat := 1
+def tfConRes : Nat := 1
+def tfPutItem : Nat := 2
+def tfTryFwd : Nat := 0
+def slotIdx (i n : Nat) : Nat := (i &&& (wrapU 64 (((n : Nat) : Int) - (((wrapU 64 (1 : Int)) : Nat) : Int))))
+def itemValid (i head tail st : Nat) : Bool := (((decide (i < tail)) && (decide (i ≥ head))) && (decide (st ≠ (0 : Nat))))
+def sizeOf (newTail tail head : Nat) : Nat := (wrapU 64 ((((if (decide (newTail ≠ 0)) then newTail else tail) : Nat) : Int) - ((head : Nat) : Int)))
+def growInit (n ibs : Nat) : Nat := (if (decide (n ≠ 0)) then (((wrapU 64 (2 : Int)) * n) % 2^64) else ibs)
+def growCond (ns m : Nat) : Bool := (decide (ns < m))
+def seqStale (tag head : Nat) : Bool := (decide (tag < head))
+def seqNewTail (tag tail : Nat) : Nat := (if (decide (((tag + (wrapU 64 (1 : Int))) % 2^64) > tail)) then ((tag + (wrapU 64 (1 : Int))) % 2^64) else tail)
+def seqGrowCond (sz cap : Nat) : Bool := (decide (sz > cap))
 
 end TbbVerif.Generated.C15
